@@ -25,6 +25,7 @@ func checkC08(w *World, r *Report) {
 	checkC08Status(w, r)
 	checkC08Location(w, r)
 	checkC08TsrParams(w, r)
+	checkC08ParentPairing(w, r)
 }
 
 func checkC08Guards(w *World, r *Report, d *dispatchInfo) {
@@ -461,5 +462,60 @@ func checkC08TsrParams(w *World, r *Report) {
 			ru.Check("sub-lookup parameters merged in "+name, w.Pos(as.Pos()), dst+" takes "+want, src == want, src)
 			return true
 		})
+	}
+}
+
+// checkC08ParentPairing: the "remove the trailing slash" candidates are the parent of the current node, so the two
+// variables must move together.
+func checkC08ParentPairing(w *World, r *Report) {
+	ru := r.Rule("C08.6", "parent and current move together: wherever the path matcher moves `current` to a child X.children[...] (descent into the static, param or catch-all child, and the resumption of a skipped alternative) it sets `parent` to X in the same basic block; the trailing-slash candidate `parent` is therefore always the node current hangs under", 4)
+	af := w.astFuncOf(modulePath, "lookupByPath")
+	n := 0
+	for _, b := range af.g.Blocks {
+		if !b.Live {
+			continue
+		}
+		// symbolic values of the two cursors in terms of their values at block entry, so that
+		// `parent = current; current = parent.children[i]` and `parent = current; current = current.children[i]` read the same
+		env := map[string]string{"parent": "parent@entry", "current": "current@entry"}
+		resolve := func(e string) string {
+			for _, v := range []string{"parent", "current"} {
+				if e == v {
+					return env[v]
+				}
+				if strings.HasPrefix(e, v+".") {
+					return env[v] + e[len(v):]
+				}
+			}
+			return e
+		}
+		var last *ast.AssignStmt
+		owner := ""
+		for _, nd := range b.Nodes {
+			as, ok := nd.(*ast.AssignStmt)
+			if !ok || len(as.Lhs) != 1 || len(as.Rhs) != 1 {
+				continue
+			}
+			switch exprStr(as.Lhs[0]) {
+			case "parent":
+				env["parent"] = resolve(exprStr(as.Rhs[0]))
+			case "current":
+				ie, ok := as.Rhs[0].(*ast.IndexExpr)
+				if ok && strings.HasSuffix(exprStr(ie.X), ".children") {
+					owner = resolve(strings.TrimSuffix(exprStr(ie.X), ".children"))
+					last = as
+					n++
+					env["current"] = "child of " + owner
+				} else {
+					env["current"] = resolve(exprStr(as.Rhs[0]))
+				}
+			}
+		}
+		if last != nil {
+			ru.Check("current = "+exprStr(last.Rhs[0]), w.Pos(last.Pos()), "parent holds "+owner+" when the block ends", env["parent"] == owner, "parent = "+env["parent"])
+		}
+	}
+	if n < 3 {
+		r.Unrecognised("C08.6: only %d descents found in lookupByPath", n)
 	}
 }
